@@ -91,37 +91,37 @@ def proj_case(rng, tier, ci, ties):
             for k in range(d - 1):
                 U = ls[k].reshape(-1, ls[k].shape[-1])
                 e = float((U.T @ U - tn.eye(U.shape[1], dtype=U.dtype)).abs().max())
-                if e > 1e-9:
+                if not (e <= 1e-9):
                     return "gauge hypothesis LeftOrthInit fails at core %d (|LᵀL - I| = %.3g)" % (k, e)
             for k in range(1, d):
                 V = rs[k].reshape(rs[k].shape[0], -1)
                 e = float((V @ V.T - tn.eye(V.shape[0], dtype=V.dtype)).abs().max())
-                if e > 1e-9:
+                if not (e <= 1e-9):
                     return "gauge hypothesis RightOrthTail fails at core %d (|RRᵀ - I| = %.3g)" % (k, e)
         nz = nrm(z) + nrm(w) + 1e-300
         # linear
         a, b = 1.5, -0.75
         Pl = MF.riemannian_projection(x, a * z + b * w)
         e = float(tn.linalg.norm((dense_of(Pl) - (a * dense_of(Pz) + b * dense_of(Pw))).reshape(-1)))
-        if e > TOL * nz:
+        if not (e <= TOL * nz):
             return "not linear: ||P(az+bw) - aP(z) - bP(w)|| = %.3g" % e
         # idempotent
         PPz = MF.riemannian_projection(x, Pz)
         e = float(tn.linalg.norm((dense_of(PPz) - dense_of(Pz)).reshape(-1)))
-        if e > TOL * nz:
+        if not (e <= TOL * nz):
             return "not idempotent: ||P(P(z)) - P(z)|| = %.3g" % e
         # self-adjoint
         e = abs(inner(Pz, w) - inner(z, Pw))
-        if e > TOL * nz * nz:
+        if not (e <= TOL * nz * nz):
             return "not self-adjoint: <Pz,w> - <z,Pw> = %.3g" % e
         # fixes x
         Px = MF.riemannian_projection(x, x)
         e = float(tn.linalg.norm((dense_of(Px) - dense_of(x)).reshape(-1)))
-        if e > TOL * (nrm(x) + 1e-300):
+        if not (e <= TOL * (nrm(x) + 1e-300)):
             return "P(x) != x: %.3g" % e
         # residual orthogonal to projected tensors
         e = abs(float(((dense_of(z) - dense_of(Pz)) * dense_of(Pw)).sum()))
-        if e > TOL * nz * nz:
+        if not (e <= TOL * nz * nz):
             return "residual z - P(z) not orthogonal to P(w): %.3g" % e
         return None
     return Case(None, impl, oracle, label, True, desc="riemannian_projection %s N=%s M=%s seed=%d" % (label, N, M, seed))
@@ -175,7 +175,7 @@ def grad_case(rng, tier, ci):
             return "gradient has shape %s" % (g.N,)
         e = float(tn.linalg.norm((dense_of(g) - dense_of(PG)).reshape(-1)))
         ref = nrm(PG) + 1e-300
-        if e > 1e-8 * ref and e > 1e-10:
+        if not (e <= 1e-8 * ref or e <= 1e-10):
             return "riemannian_gradient differs from the projection of the Euclidean gradient: rel %.3g (%s)" % (e / ref, label)
         return None
     return Case(None, impl, oracle, label, True, desc="riemannian_gradient %s N=%s M=%s seed=%d" % (fam, N, M, seed))
